@@ -9,6 +9,8 @@ val fst : ('a1 * 'a2) -> 'a1
 
 val snd : ('a1 * 'a2) -> 'a2
 
+val length : 'a1 list -> nat
+
 type comparison =
 | Eq
 | Lt
@@ -31,6 +33,11 @@ type z =
 | Z0
 | Zpos of positive
 | Zneg of positive
+
+module Nat :
+ sig
+  val eqb : nat -> nat -> bool
+ end
 
 module Pos :
  sig
@@ -306,3 +313,29 @@ val erode_spec_all : dt -> arr -> arr -> z list
 val dilate_spec_all : dt -> arr -> arr -> z list
 
 val nbh_inside : dt -> arr -> arr -> z list -> bool
+
+val mk : arr -> z list -> arr
+
+val pmin : z list -> z list -> z list
+
+val pmax : z list -> z list -> z list
+
+val mh_open : dt -> arr -> arr -> z list
+
+val mh_close : dt -> arr -> arr -> z list
+
+val list_eqb : z list -> z list -> bool
+
+val cdilate_loop : dt -> arr -> z list -> arr -> nat -> z list
+
+val mh_cdilate : dt -> arr -> z list -> arr -> nat -> z list
+
+val mh_cerode : dt -> arr -> z list -> arr -> z list
+
+val subm_d : dt -> z -> z -> z
+
+val psubm : dt -> z list -> z list -> z list
+
+val mh_tophat_open : dt -> arr -> arr -> z list
+
+val mh_tophat_close : dt -> arr -> arr -> z list
